@@ -95,6 +95,17 @@ def build():
                         want = [(m, 16, 4) for m in CORRECTION[bs]]
                         ctx.check(f"pair[{i}]: exactly the Pauli correction of its own Bell state is applied to its qubit", got == want)
                         break
+            if expect:
+                # independent of WHICH qubit was hit: the rotations issued are the corrections of the delivered Bell states, in pair order
+                want_all = []
+                decided = True
+                for i in range(number):
+                    for bs in BellState:
+                        if ctx.truth(ctx.eq(bells[i], bs)):
+                            want_all += [(m, 16, 4) for m in CORRECTION[bs]]
+                            break
+                ctx.check("rotations issued == Pauli corrections of the delivered Bell states in pair order (whatever qubit they hit)",
+                          [(m, n, d) for (m, p, n, d) in applied] == want_all)
             others = [(m, p) for (m, p, n, d) in applied if p not in phys_of_pair]
             ctx.check("no-other-qubit-is-rotated", others == [])
         return f
